@@ -558,6 +558,7 @@ func ParseURI(uri SIPStr, puri *PsipURI) (ErrorURI, int) {
 					puri.Host.Reset()
 					puri.Port.Reset()
 					puri.PortNo = 0
+					portNo = 0 // forget the port computed for the "host" part
 					puri.Params.Reset()
 					puri.Headers.Reset()
 				} else {
@@ -619,6 +620,7 @@ func ParseURI(uri SIPStr, puri *PsipURI) (ErrorURI, int) {
 					puri.Host.Reset()
 					puri.Port.Reset()
 					puri.PortNo = 0
+					portNo = 0 // forget the port computed for the "host" part
 					puri.Params.Reset()
 					puri.Headers.Reset()
 				} else {
